@@ -31,10 +31,18 @@ Definition gz_sound_gen_statement : Prop :=
     is_prefix (obs_bytes l) (g_payload R) /\
     (g_err R <> CEOF -> ~ In (GR REOF) (map snd l)) /\
     (In (GR REOF) (map snd l) ->
-       e0 = GR ROk /\ g_err R = CEOF /\ obs_bytes l = g_payload R /\
+       (e0 = GR ROk \/ (e0 = GR REOF /\ s = [])) /\
+       g_err R = CEOF /\ obs_bytes l = g_payload R /\
        buf_ok (z_r z2) /\ bstream (z_r z2) = g_left R /\ (exists pre, s = pre ++ g_left R) /\
        consumed (z_r z2) + lenN (g_left R) = consumed b + lenN s /\
        bsize (z_r z2) = bsize b /\ term (z_r z2) = term b).
+
+(* REFUTED first version: the last conjunct began with "e0 = GR ROk /\ ..." instead of the
+   disjunction.  Counterexample: Reset onto an exhausted source (z = gzZero b, b = mkbufrd 0 [] TEOF,
+   multi = true, reads = [1]): Reset returns io.EOF, and so does the Read that follows (the error
+   is sticky), so io.EOF occurs among the results although e0 = GR REOF.  The refuted form is kept,
+   with its formal refutation gz_sound_gen_false, in proofs/GzEngineSound2.v
+   (gz_sound_gen_refuted_statement). *)
 
 (* the run with the number of source bytes consumed (the 4th component of gzrun_obs) *)
 Definition gzrun_ext (bufsize : N) (cs : list (list N)) (t : terminal) (multi : bool) (reads : list N)
